@@ -408,11 +408,12 @@ fn run_round(r: &mut Report, seed: u64, round: u64, sz: &Sizes) {
     }
 
     // ---- phase 1: the race ----
-    let barrier = Barrier::new(n_init + 1);
+    let barrier = Barrier::new(n_init + n_obs + 1);
     let outs: Vec<ActorOut> = std::thread::scope(|s| {
         let mut handles = Vec::new();
         for o in 0..n_obs {
             let slot = &slot;
+            let barrier = &barrier;
             let aseed = actor_seeds[n_init + o];
             let (spin_cap, post_steps) = (sz.spin_cap, sz.post_steps);
             handles.push(s.spawn(move || {
@@ -421,6 +422,8 @@ fn run_round(r: &mut Report, seed: u64, round: u64, sz: &Sizes) {
                 let mut next_id = ((100 + o as u64) << 40) + 1;
                 let mut post = 0;
                 let mut n = 0;
+                // released together with the initialisers so the spinning overlaps the race
+                barrier.wait();
                 // logical bounds only: no verdict depends on how far the observer got
                 while post < post_steps && n < spin_cap {
                     if step(slot, &mut g, &mut next_id, &mut out.steps, &mut out.emissions) {
@@ -741,7 +744,7 @@ fn main() {
     let sz = Sizes {
         max_init: args.get_u64("max-init", 16).clamp(2, 16),
         max_obs: args.get_u64("max-obs", 8).min(8),
-        spin_cap: args.get_u64("spin-cap", if cfg!(miri) { 12 } else { 400 }),
+        spin_cap: args.get_u64("spin-cap", if cfg!(miri) { 12 } else { 3000 }),
         post_steps: args.get_u64("post-steps", if cfg!(miri) { 2 } else { 4 }),
     };
 
